@@ -263,6 +263,10 @@ fn sanitize_lider_data(input: &str) -> String {
         } else {
             return cleanlines;
         };
+    // Sin atributos sueltos previos no hay parte de LIDER que envolver
+    if _lider_part.trim().is_empty() {
+        return bdl_part.to_string();
+    }
     format!(
         "\"PARTELIDER\" = PARTELIDER\n{}\n..\n{}",
         _lider_part, bdl_part
